@@ -48,7 +48,7 @@ Definition inside (o : req_object) : params := jr_params (contents o).
 Definition mech_missing (cfg : config) (c : client) (p : params) : N :=
   if andb (pk_is_empty (p_challenge p)) (orb (cf_pkce_required cfg) (andb (cf_pkce_enabled cfg) (c_public c))) then 4 else
   if andb (cf_openid_required cfg) (negb (contains_openid (p_scopes p))) then 5 else
-  if cf_resource_required cfg then 6 else
+  if andb (cf_resource_required cfg) (no_res (p_resources p)) then 6 else
   match cf_profile cfg with
   | PFapi1 =>
       if negb (orb (seqb (p_resp_type p) "code") (seqb (p_resp_type p) "code id_token")) then 10 else
